@@ -102,15 +102,15 @@ __CPROVER_ensures(__CPROVER_return_value == T._pos && cv_exc_pending == 0)
  * published at position p is the value handed to the push that moved _pos past p. */
 #define PUSH_LK_PRE(q, count) ((count) < PS_BIG && Q_CFG && Q_STREAM(count) && POS + (count) < PS_BIG && dq_len >= MIN2(MINL, POS - 1) + (count) && \
    dq_len - (count) <= MAXL && Q_REGS && (T_IN ==> SLOT_INV_PUSHPRE(T, gh_RH)))
-#ifdef CV_HAS_fw_push_lk
 cv_i64 gh_fw_pos_at_call, gh_fw_front_at_call; cv_i8 gh_fw_closed_at_call;
+#define PUSHW_ASSIGNS LOCK_ASSIGNS, FW_ASSIGNS, DQ_MODEL_ASSIGNS, gh_fw_pos_at_call, gh_fw_front_at_call, gh_fw_closed_at_call
+#define PUSHW_PRE(q) (FW_PRE(q) && Q_INV && POS + 1 < PS_BIG && (T_IN ==> SLOT_INV(T, gh_RH)) && rg_other_idx == RG_NONE)
+#ifdef CV_HAS_fw_push_lk
 void fw_push_lk(QT *this_, ULK *lk, cv_i64 count) {
   FW_RECORD(this_, lk, count);
   __CPROVER_assert(lk->_M_owns == 1 && lk->_M_device == &this_->_mx, "push_lk receives the unique_lock that owns the queue mutex");
   __CPROVER_assert(PUSH_LK_PRE(this_, count), "precondition of push_lk holds at the call (state after the items were pushed to the front)");
   gh_fw_pos_at_call = POS; gh_fw_front_at_call = dq_front; gh_fw_closed_at_call = CLOSED; }
-#define PUSHW_ASSIGNS LOCK_ASSIGNS, FW_ASSIGNS, DQ_MODEL_ASSIGNS, gh_fw_pos_at_call, gh_fw_front_at_call, gh_fw_closed_at_call
-#define PUSHW_PRE(q) (FW_PRE(q) && Q_INV && POS + 1 < PS_BIG && (T_IN ==> SLOT_INV(T, gh_RH)) && rg_other_idx == RG_NONE)
 #endif
 #ifdef CV_HAS_qw_push_move
 void qw_push_move(QT *this_, cv_i32 *val)
